@@ -406,7 +406,7 @@ func (e *Engine) stdStub(full string, c *ast.CallExpr, recv *Value, args []Value
 			lenc, start = eq(l1, l2), e.izero()
 		}
 		var body string
-		if lit, ok := e.strLitOf(args[1].T); ok && len(lit) <= 32 {
+		if lit, ok := e.strLitOf(args[1].T); ok && len(lit) <= 80 {
 			var cs []string
 			for i := 0; i < len(lit); i++ {
 				cs = append(cs, eq(sx("select", a1, e.add(e.add(o1, start), e.ilit(fmt.Sprint(i)))), e.byteLit(int(lit[i]))))
